@@ -59,6 +59,8 @@ pub struct OsState {
     pub next_udp_port: u16,
     /// every listening port a label was ever given by the OS
     pub listen_history: BTreeMap<String, Vec<u16>>,
+    /// every listening port the node's RPC successfully reported to the manager (network_info), per label
+    pub reported_ports: BTreeMap<String, Vec<u16>>,
     pub installs: Vec<InstallRecord>,
     // ---- per-operation fault state
     pub op_index: usize,
@@ -443,6 +445,7 @@ impl RpcActions for SimRpc {
         match os.proc_of_rpc(&self.addr).cloned() {
             Some(p) => {
                 os.note(format!("rpc.network_info -> udp {}", p.listen_port));
+                os.reported_ports.entry(p.label.clone()).or_default().push(p.listen_port);
                 let listeners: Vec<Multiaddr> = vec![
                     format!("/ip4/127.0.0.1/udp/{}/quic-v1", p.listen_port)
                         .parse()
